@@ -57,6 +57,35 @@ static std::string cmd_expr(const std::vector<std::string> &args)
   return out;
 }
 
+// expr32 <noPostfix> tok ... : the int overload (32-bit narrowing with range test)
+static std::string cmd_expr32(const std::vector<std::string> &args)
+{
+  if (args.size() < 1) { return "bad-op"; }
+  std::string text;
+  for (size_t i = 1; i < args.size(); i++) { text += args[i]; text += " "; }
+  text += "\n";
+  AsmContext *ctx = new AsmContext();
+  ctx->pass = 2;
+  ctx->ignore_number_postfix = args[0] == "1";
+  tokens_open_buffer(ctx, text.c_str());
+  tokens_reset(ctx);
+  int num = 0;
+  int ret = eval_expression(ctx, &num);
+  std::string out;
+  if (ret != 0 || ctx->error_count != 0)
+  {
+    out = "err";
+  }
+  else
+  {
+    char buf[64];
+    snprintf(buf, sizeof(buf), "ok %08x", (unsigned int)num);
+    out = buf;
+  }
+  delete ctx;
+  return out;
+}
+
 static std::string cmd_lit(const std::vector<std::string> &args)
 {
   if (args.size() != 2) { return "bad-op"; }
@@ -85,4 +114,5 @@ static void register_expr()
 {
   handlers["expr"] = cmd_expr;
   handlers["lit"] = cmd_lit;
+  handlers["expr32"] = cmd_expr32;
 }
